@@ -522,6 +522,27 @@ func DrawHistory(r *Rng, cfg HistConfig) (*Scenario, *histWorld) {
 			// (the first call ran a generator that has stopped rendering: not one set of generators any more,
 			// and what a later cached run leaves is then no statement about the final state — T5)
 			sc.UniformGens = false
+		case cfg.PSumOps > 0 && hit("reuse-delsum", cfg.PReuse/2):
+			// a long-lived tool: the tree is at rest, Execute (nothing to do), gengo.sum disappears, Execute
+			// again on the same executor - without the file there is no record to trust
+			var all []int
+			for pi, p := range m.Pkgs {
+				if !p.InSub {
+					all = append(all, pi)
+				}
+			}
+			run0 := &RunOp{Args: proto.GenArgs{Entrypoint: spell(r, m, all), Base: w.base, All: true}, Gens: w.gens, Sched: drawSched(r), Fresh: true}
+			run1 := *run0
+			run1.KeepExecutor = true
+			run2 := *run0
+			run2.Fresh, run2.ReuseExecutor, run2.Sched = false, true, drawSched(r)
+			ops = append(ops, Op{Kind: "run", Run: run0}, Op{Kind: "converge", K: 3}, Op{Kind: "run", Run: &run1})
+			if r.P(0.7) {
+				ops = append(ops, Op{Kind: "delsum"})
+			} else {
+				ops = append(ops, Op{Kind: "corruptsum", K: r.Intn(64), How: "empty"})
+			}
+			ops = append(ops, Op{Kind: "run", Run: &run2})
 		case hit("reuse", cfg.PReuse):
 			// a tool that loads once and calls Execute twice: after a failure, with fewer generators, or
 			// with a generator that has nothing to say any more
@@ -751,7 +772,7 @@ func runHistory(c *CheckCtx, i int, r *Rng, cfg HistConfig) error {
 		for _, mo := range []struct {
 			name string
 			p    float64
-		}{{"fail-after-edit", cfg.PFailAfterEdit}, {"clock", cfg.PClock}, {"type-error", cfg.PTypeError}, {"retry", cfg.PReuse}, {"reuse", cfg.PReuse},
+		}{{"fail-after-edit", cfg.PFailAfterEdit}, {"clock", cfg.PClock}, {"type-error", cfg.PTypeError}, {"retry", cfg.PReuse}, {"reuse", cfg.PReuse}, {"reuse-delsum", min(cfg.PReuse, cfg.PSumOps)},
 			{"protect", cfg.PProtect}, {"linkout", cfg.PLinkOut}, {"stale", cfg.PStale}, {"sumops", cfg.PSumOps}, {"retag", cfg.PRetag}} {
 			if mo.p > 0 {
 				enabled = append(enabled, mo.name)
@@ -828,7 +849,7 @@ func SimC08(c *CheckCtx, i int, r *Rng) error {
 		return simWide(c, i, r)
 	}
 	return runHistory(c, i, r, HistConfig{MinOps: 4, MaxOps: 9, PAll: 0.85, PForce: 0.15, PGlobals: 0.1, PSubsetGens: 0.2, PEdit: 0.3, PStale: 0.05,
-		PSumOps: 0.2, PUnhashable: 0.06, PBreak: 0.04, PGenFault: 0.1, PIOFault: 0.12, PKill: 0.08, PMidEdit: 0.1, PConverge: 0.6, PFailAfterEdit: 0.12, PMute: 0.1, PReal: 0.08, PUniform: 0.4, PCancel: 0.04, PWarm: 0.06, PCwd: 0.1, PClock: 0.25, PProtect: 0.06, PTypeError: 0.06})
+		PSumOps: 0.2, PUnhashable: 0.06, PBreak: 0.04, PGenFault: 0.1, PIOFault: 0.12, PKill: 0.08, PMidEdit: 0.1, PConverge: 0.6, PFailAfterEdit: 0.12, PMute: 0.1, PReal: 0.08, PUniform: 0.4, PCancel: 0.04, PWarm: 0.06, PCwd: 0.1, PClock: 0.25, PProtect: 0.06, PTypeError: 0.06, PReuse: 0.08})
 }
 
 // simWide: a module with many local packages (a size no small world reaches: code that switches
